@@ -263,13 +263,16 @@ Qed.
 
 (** * the HIR follows the AST *)
 Section Align.
-  Variable lower : chunk -> option hchunk.
+  Variable lower : chunk -> lowered.
   Variable cname : chunk -> Z.
   Variable hname : hchunk -> Z.
   Variable hfailed : hchunk -> bool.
 
   (** every HIR chunk is the lowering of the AST chunk at the same index *)
-  Definition aligned (a : ast) (h : hir) : Prop := map lower a = map Some h.
+  Definition aligned (a : ast) (h : hir) : Prop := map lower a = map LSome h.
+
+  (** the guard of the known finding C29-quick-check-panics: lowering a chunk does not panic *)
+  Definition lower_total : Prop := forall c, lower c <> LPanic.
 
   Lemma map_upd_add {A B} (f : A -> B) i x l : map f (upd_add i x l) = upd_add i (f x) (map f l).
   Proof.
@@ -296,7 +299,7 @@ Section Align.
     unfold replace_at. rewrite map_app. cbn [map]. now rewrite firstn_map, skipn_map.
   Qed.
 
-  Lemma hfix_aligned : forall a h, aligned a h -> hfix lower cname hname hfailed a h = h.
+  Lemma hfix_aligned : forall a h, aligned a h -> hfix lower cname hname hfailed a h = Ok h.
   Proof.
     unfold aligned. induction a as [|c a IH]; intros [|x h] H; cbn [map] in H; try discriminate; cbn [hfix].
     - reflexivity.
@@ -304,16 +307,33 @@ Section Align.
       destruct (negb (cname c =? hname x)); [reflexivity|]. destruct (hfailed x); reflexivity.
   Qed.
 
+  Lemma hfix_no_panic : lower_total -> forall a h, hfix lower cname hname hfailed a h <> Panic.
+  Proof.
+    intros Ht. induction a as [|c a IH]; intros [|x h]; cbn [hfix]; try discriminate.
+    destruct (negb (cname c =? hname x)).
+    - destruct (hfix lower cname hname hfailed a h) eqn:E; [discriminate|now apply IH in E].
+    - destruct (hfailed x).
+      + destruct (lower c) eqn:L; try (destruct (hfix lower cname hname hfailed a h) eqn:E; [discriminate|now apply IH in E]).
+        now apply Ht in L.
+      + destruct (hfix lower cname hname hfailed a h) eqn:E; [discriminate|now apply IH in E].
+  Qed.
+
   Lemma hupdate_aligned old hs d hd :
-    aligned old hs -> hirdiff_new lower d = Some hd -> aligned (update d old) (hupdate hd hs).
+    aligned old hs -> hirdiff_new lower d = Ok (Some hd) -> aligned (update d old) (hupdate hd hs).
   Proof.
     unfold aligned. intros Ha Hd. destruct d as [i | i c | i c |]; cbn [hirdiff_new] in Hd.
     - injection Hd as <-. cbn [update hupdate]. now rewrite !map_upd_del, Ha.
-    - destruct (lower c) as [h|] eqn:L; [|discriminate]. injection Hd as <-. cbn [update hupdate].
+    - destruct (lower c) as [h| |] eqn:L; try discriminate. injection Hd as <-. cbn [update hupdate].
       now rewrite !map_upd_add, Ha, L.
-    - destruct (lower c) as [h|] eqn:L; [|discriminate]. injection Hd as <-. cbn [update hupdate].
+    - destruct (lower c) as [h| |] eqn:L; try discriminate. injection Hd as <-. cbn [update hupdate].
       now rewrite !map_upd_mod, Ha, L.
     - injection Hd as <-. exact Ha.
+  Qed.
+
+  Lemma hirdiff_new_no_panic d : lower_total -> hirdiff_new lower d <> Panic.
+  Proof.
+    intros Ht. destruct d as [i | i c | i c |]; cbn [hirdiff_new]; try discriminate;
+      destruct (lower c) eqn:L; try discriminate; now apply Ht in L.
   Qed.
 
   Variable D : Type.
@@ -330,18 +350,24 @@ Section Align.
     destruct (e_ast e) as [old|]; [|intros [= <-]; auto].
     destruct (diff old (ast_of (f_text D s))) as [d|]; [|discriminate].
     destruct (is_nop d); [intros [= <-]; auto|].
+    destruct (hirdiff_new lower d) as [ohd|]; [|discriminate].
     match goal with |- context [match ?p with pair _ _ => _ end] => destruct p as [a1 h1] end.
+    match goal with |- context [match ?p with Ok _ => _ | Panic => _ end] => destruct p as [h2|] end; [|discriminate].
     intros [= <-]. cbn. auto.
   Qed.
 
-  Lemma quick_check_no_panic s : quick_check s <> Panic.
+  Lemma quick_check_no_panic s : lower_total -> quick_check s <> Panic.
   Proof.
+    intros Ht.
     unfold Model.quick_check. destruct (f_mod D s) as [e|]; [|discriminate].
     destruct (e_ast e) as [old|]; [|discriminate].
     destruct (diff old (ast_of (f_text D s))) as [d|] eqn:E; [|now apply diff_no_panic in E].
     destruct (is_nop d); [discriminate|].
+    destruct (hirdiff_new lower d) as [ohd|] eqn:Hn; [|now apply hirdiff_new_no_panic in Hn].
     match goal with |- context [match ?p with pair _ _ => _ end] => destruct p as [a1 h1] end.
-    discriminate.
+    destruct h1 as [h|]; [|discriminate].
+    destruct (hfix lower cname hname hfailed (ast_of (f_text D s)) h) eqn:F; [discriminate|].
+    now apply hfix_no_panic in F.
   Qed.
 
   (** one changed chunk, lowering succeeds: afterwards the cached AST is the AST of the text and the HIR follows *)
@@ -349,7 +375,7 @@ Section Align.
     f_mod D s = Some {| e_ast := Some old; e_hir := Some hs |} ->
     aligned old hs ->
     edit1 old (ast_of (f_text D s)) ->
-    (forall c, In c (ast_of (f_text D s)) -> lower c <> None) ->
+    (forall c, In c (ast_of (f_text D s)) -> exists h, lower c = LSome h) ->
     exists s' hs', quick_check s = Ok s' /\
       f_mod D s' = Some {| e_ast := Some (ast_of (f_text D s)); e_hir := Some hs' |} /\
       aligned (ast_of (f_text D s)) hs'.
@@ -360,15 +386,16 @@ Section Align.
     destruct (is_nop d) eqn:N.
     - destruct d; try discriminate. cbn [update] in Hu. subst old.
       exists s, hs. rewrite Hm. auto.
-    - assert (Hn : exists hd, hirdiff_new lower d = Some hd).
+    - assert (Hn : exists hd, hirdiff_new lower d = Ok (Some hd)).
       { pose proof (diff_carries _ _ _ Hd) as Hc.
         destruct d as [i | i c | i c |]; cbn [hirdiff_new]; eauto.
-        - destruct (lower c) eqn:L; eauto. exfalso. apply (Hl c); [|exact L]. eapply nth_error_In; eauto.
-        - destruct (lower c) eqn:L; eauto. exfalso. apply (Hl c); [|exact L]. eapply nth_error_In; eauto. }
+        - destruct (Hl c) as [h L]; [eapply nth_error_In; eauto|]. rewrite L. eauto.
+        - destruct (Hl c) as [h L]; [eapply nth_error_In; eauto|]. rewrite L. eauto. }
       destruct Hn as [hd Hn]. rewrite Hn.
       pose proof (hupdate_aligned _ _ _ _ Ha Hn) as Ha2. rewrite Hu in Ha2.
+      rewrite (hfix_aligned _ _ Ha2).
       eexists. exists (hupdate hd hs). split; [reflexivity|]. cbn [f_mod].
-      rewrite Hu. rewrite (hfix_aligned _ _ Ha2). auto.
+      rewrite Hu. auto.
   Qed.
 
   (** * convergence *)
@@ -398,8 +425,9 @@ Section Align.
     destruct (is_nop d); discriminate.
   Qed.
 
-  Lemma step_no_panic b s ev : step b s ev <> Panic.
+  Lemma step_no_panic b s ev : lower_total -> step b s ev <> Panic.
   Proof.
+    intros Ht.
     destruct ev as [tr t | dp |]; cbn [Model.step].
     - destruct tr; [|discriminate].
       destruct (quick_check s) eqn:E; [discriminate|]. now apply quick_check_no_panic in E.
@@ -408,8 +436,9 @@ Section Align.
     - discriminate.
   Qed.
 
-  Lemma run_no_panic_l b : forall evs s, run b s evs <> Panic.
+  Lemma run_no_panic_l b : lower_total -> forall evs s, run b s evs <> Panic.
   Proof.
+    intros Ht.
     induction evs as [|ev evs IH]; intros s; cbn [Model.run]; [discriminate|].
     destruct (step b s ev) eqn:E; [apply IH|]. now apply step_no_panic in E.
   Qed.
@@ -490,13 +519,14 @@ Section Align.
   Definition is_recheck (ev : event) : Prop := match ev with ESave _ | EPoll => True | EChange _ _ => False end.
 
   Lemma convergence_l t0 d0 evs last :
+    lower_total ->
     is_recheck last ->
     exists s, run true (open D check full_hir t0 d0) (evs ++ [last]) = Ok s /\
               f_text D s = final_text t0 evs /\
               f_pub D s = check (final_text t0 evs) /\
               converged D check full_hir s.
   Proof.
-    intros Hr. rewrite run_app.
+    intros Hlt Hr. rewrite run_app.
     destruct (run true (open D check full_hir t0 d0) evs) as [s1|] eqn:E1;
       [|now apply run_no_panic_l in E1].
     pose proof (pub_inv_run _ _ _ _ (pub_inv_open t0 d0) E1) as Hi.
@@ -514,7 +544,7 @@ Section Align.
 End Align.
 
 (** * without the text comparison (the code before the repair) the property fails *)
-Definition w_lower (c : chunk) : option hchunk := Some c.
+Definition w_lower (c : chunk) : lowered := LSome c.
 Definition w_name (c : Z) : Z := 0.
 Definition w_failed (h : hchunk) : bool := false.
 Definition w_check (t : text) : text := t.          (* diagnostics that show every chunk with its position *)
@@ -537,6 +567,14 @@ Lemma old_code_refuted_l :
 Proof.
   split; eexists; (split; [vm_compute; reflexivity|]); vm_compute; discriminate.
 Qed.
+
+(** the known finding in the model: a lowering that panics on one chunk makes the didChange handler panic *)
+Definition wp_lower (c : chunk) : lowered := if c =? 2 then LPanic else LSome c.
+
+Lemma lower_panic_refuted_l :
+  run wp_lower w_name w_name w_failed text w_check w_full_hir true (open text w_check w_full_hir w2_t0 [])
+      [EChange true [(1, 0); (2, 1)]; EChange true [(1, 0); (2, 2)]] = Panic.
+Proof. vm_compute. reflexivity. Qed.
 
 (** * the judge *)
 Lemma zs_eqb_eq : forall a b, zs_eqb a b = true <-> a = b.
